@@ -1,4 +1,5 @@
 from collections import defaultdict
+from inspect import getfullargspec
 try:
     from collections import OrderedDict
 except ImportError:
@@ -29,12 +30,42 @@ def group_equations(equations):
 
 
 ###############################################################################
+def get_arrays_used_in_precomputed(equation):
+    """Return two sets, the source and destination arrays needed to compute
+    the precomputed symbols (``VIJ``, ``HIJ``, ``RHOIJ``, ``WIJ`` etc.) that
+    the equation's ``loop`` asks for, including those of the symbols they in
+    turn depend on.
+    """
+    src_arrays = set()
+    dest_arrays = set()
+    loop = getattr(equation, 'loop', None)
+    if loop is None or equation.no_source:
+        return src_arrays, dest_arrays
+    pre_comp = Group.pre_comp
+    todo = [x for x in getfullargspec(loop).args if x in pre_comp]
+    done = set()
+    while todo:
+        sym = todo.pop()
+        if sym in done:
+            continue
+        done.add(sym)
+        code_block = pre_comp[sym]
+        src_arrays.update(code_block.src_arrays)
+        dest_arrays.update(code_block.dest_arrays)
+        todo.extend(x for x in code_block.symbols if x in pre_comp)
+    return src_arrays, dest_arrays
+
+
 def check_equation_array_properties(equation, particle_arrays):
     """Given an equation and the particle arrays, check if the particle arrays
-    have the necessary properties.
+    have the necessary properties.  This includes the properties needed by
+    the precomputed symbols the equation uses.
     """
     p_arrays = dict((x.name, x) for x in particle_arrays)
     _src, _dest = get_arrays_used_in_equation(equation)
+    _pre_src, _pre_dest = get_arrays_used_in_precomputed(equation)
+    _src.update(_pre_src)
+    _dest.update(_pre_dest)
     if equation.dest not in p_arrays:
         msg = "ERROR: Equation {eq_name} has invalid dest: '{dest}'".format(
             eq_name=equation.name, dest=equation.dest
